@@ -115,6 +115,7 @@ PROPS = {
                U("c09_external_single", ["C09.V.first_below"]), U("c09_external_multi", ["C09.V.first_below"]),
                U("c10_sampled_chance", ["C10.V.sampled_chance.cache_hit", "C10.V.sampled_chance.reset"]),
                U("c10_external_next", ["C10.V.external.chance_next (the draw made at the first visit is the one every later visit of the pass follows)", "C10.V.external.next_update"]),
+               U("c07_external_next_nodes", ["C07.V.next_nodes.sampled_walk (the frontier walk follows exactly the sampled outcome / sampled action down to the pass's own player)", "C07.V.next_nodes.draws_kept (at most one sample per infoset per pass)"]),
                U("c10_cached_infoset", ["C10.V.cached_infoset.cache_hit"]),
                U("c08_advance_order", ["C10.V.cached_infoset.advance_resets_draw"])],
         trusted_base=["assumed contracts on thread_threshold and rayon (prelude/workspace.rs)"],
@@ -187,11 +188,12 @@ PROPS = {
             U("c08_advance_order", ["C10.V.cached_infoset.advance_resets_draw"]),
             U("c10_full_chance", ["C10.V.full_chance.no_draw"]),
             U("c10_external_next", ["C10.V.external.chance_next", "C10.V.external.chance_advance_rearms", "C10.V.external.player_next", "C10.V.external.next_update"]),
+            U("c07_external_next_nodes", ["C07.V.next_nodes.sampled_walk", "C07.V.next_nodes.draws_kept"]),
             U("c08_recurse_regret_dispatch", ["C08.V.recurse_regret.active_enumerates (the pass's own player is enumerated)", "C08.V.recurse_regret.external_sampled (the other player's sampled action is followed)", "C08.V.recurse_regret.chance_sampled"]),
         ],
         kani_functions=["src/solve/multinomial.rs :: impl Distribution<usize> for Multinomial / fn sample"],
         trusted_base=[FLOAT_IDEAL, "rand::Rng::gen, rand_distr::WeightedAliasIndex (assumed contracts)"],
-        not_decided=["statistical correctness of the alias sampler", "external::next_nodes (the frontier walk's use of the same samplers)"],
+        not_decided=["statistical correctness of the alias sampler", "external::thread_threshold's work-list loop around next_nodes (that the frontier is a cut of the sampled tree, each node once)"],
     ),
     "C13": dict(
         level="proof",
